@@ -36,6 +36,7 @@ ASSUMPTIONS = [
     "top-level names carry a per-tree suffix so that sys.modules never aliases two trees",
 ]
 NSHARDS = {'quick': 16, 'thorough': 16}
+RULE += (' Search-path shapes: empty list / tuple, several entries, an entry spelled with trailing separator / dot / symlink, the empty string, plain directories named like the parent packages before and behind the tree (the given list must come back unchanged); packages that re-export a function named like its submodule; package __main__ files imported by path; zip archives.')
 NAMES = ['a', 'b', 'c', 'pkg_x', 'mod_y', '_p', 'test__init__', 'run__main__', '__init__x']
 
 
